@@ -127,7 +127,7 @@ func runC17(e *Env) {
 	for f, c := range tree.Inside {
 		insideByContent[c] = f
 	}
-	e.RunCases("requests", e.N(20000, 600000), 0, func(t *T) {
+	e.RunCases("requests", e.N(20000, 4000000), 0, func(t *T) {
 		r := t.R
 		kind := pick(r, []string{"StaticDir", "StaticFiles", "StaticFiles", "StaticFS", "StaticFile"})
 		prefix := pick(r, []string{"/s", "/assets/v1"})
